@@ -982,3 +982,87 @@ Proof.
   destruct (hhtfc_check_sound S d HC) as (_ & _ & _ & _ & Hn32 & _).
   apply range_ids_spec; [exact Hsort|]. assert (2 ^ 32 < 2 ^ 64) by (apply N.pow_lt_mono_r; lia). lia.
 Qed.
+
+(* ====================================================================== *)
+(* M. two objects dumped from the real constructor + save + load            *)
+(* ====================================================================== *)
+(* hhx_usa: S = {alabama, alaska, arizona, arkansas, california, colorado, connecticut, delaware}, bucketsize 3
+   hhx_t16: S = {a^128} U {a^128 c : c = 'b' .. 'q'} (17 strings), bucketsize 32: every in-bucket shared prefix is 128,
+   whose VByte is 00 81; with 17 such items the Huffman code of the byte 0 has 3 bits, the 16-bit chunk that starts an
+   item holds more than two symbols, and the decoder takes the first VByte byte for the end of a string
+   (known finding ht-front-coding-lcp-ge-128; wip/hhtfc/one.py t16 replays it on the real code) *)
+Definition hhx_usa_S : list str := [[97; 108; 97; 98; 97; 109; 97]; [97; 108; 97; 115; 107; 97]; [97; 114; 105; 122; 111; 110; 97]; [97; 114; 107; 97; 110; 115; 97; 115]; [99; 97; 108; 105; 102; 111; 114; 110; 105; 97]; [99; 111; 108; 111; 114; 97; 100; 111]; [99; 111; 110; 110; 101; 99; 116; 105; 99; 117; 116]; [100; 101; 108; 97; 119; 97; 114; 101]].
+Definition hhx_usa_d : hhtfc :=
+  {| hh_ht :=
+  {| h_elements := 8; h_maxlength := 12; h_maxcomplength := 15; h_buckets := 3; h_bsize := 3;
+     h_text := [83; 37; 44; 83; 53; 0; 225; 223; 220; 255; 238; 190; 119; 221; 247; 143; 255; 0; 83; 118; 42; 104; 225; 78; 0; 0; 231; 193; 255; 110; 251; 126; 249; 199; 191; 255; 117; 247; 183; 190; 127; 211; 223; 128; 90; 213; 163; 69; 213; 174; 88; 22; 186; 114; 0; 231; 211; 151; 111; 247; 191; 243; 151; 192; 0; 0];
+     h_bl := [0; 0; 18; 44; 66];
+     h_cw := [(0, 7); (4, 9); (5, 9); (6, 9); (7, 9); (8, 9); (9, 9); (10, 9); (11, 9); (12, 9); (13, 9); (14, 9); (15, 9); (16, 9); (17, 9); (18, 9); (19, 9); (20, 9); (21, 9); (22, 9); (23, 9); (24, 9); (25, 9); (26, 9); (27, 9); (28, 9); (29, 9); (30, 9); (31, 9); (32, 9); (33, 9); (34, 9); (35, 9); (36, 9); (37, 9); (38, 9); (39, 9); (20, 8); (21, 8); (22, 8); (23, 8); (24, 8); (25, 8); (26, 8); (27, 8); (28, 8); (29, 8); (30, 8); (31, 8); (32, 8); (33, 8); (34, 8); (35, 8); (36, 8); (37, 8); (38, 8); (39, 8); (40, 8); (41, 8); (42, 8); (43, 8); (44, 8); (45, 8); (46, 8); (47, 8); (48, 8); (49, 8); (50, 8); (51, 8); (52, 8); (53, 8); (54, 8); (55, 8); (56, 8); (57, 8); (58, 8); (59, 8); (60, 8); (61, 8); (62, 8); (63, 8); (64, 8); (65, 8); (66, 8); (67, 8); (68, 8); (69, 8); (70, 8); (71, 8); (72, 8); (73, 8); (74, 8); (75, 8); (76, 8); (77, 8); (78, 8); (79, 8); (10, 5); (44, 7); (45, 7); (92, 8); (93, 8); (188, 9); (189, 9); (95, 8); (96, 8); (97, 8); (49, 7); (50, 7); (51, 7); (52, 7); (53, 7); (108, 8); (109, 8); (55, 7); (56, 7); (57, 7); (58, 7); (118, 8); (119, 8); (120, 8); (121, 8); (122, 8); (123, 8); (124, 8); (125, 8); (126, 8); (127, 8); (128, 8); (129, 8); (130, 8); (131, 8); (132, 8); (133, 8); (134, 8); (135, 8); (136, 8); (137, 8); (138, 8); (139, 8); (140, 8); (141, 8); (142, 8); (143, 8); (144, 8); (145, 8); (146, 8); (147, 8); (148, 8); (149, 8); (150, 8); (151, 8); (152, 8); (153, 8); (154, 8); (155, 8); (156, 8); (157, 8); (158, 8); (159, 8); (160, 8); (161, 8); (162, 8); (163, 8); (164, 8); (165, 8); (166, 8); (167, 8); (168, 8); (169, 8); (170, 8); (171, 8); (172, 8); (173, 8); (174, 8); (175, 8); (176, 8); (177, 8); (178, 8); (179, 8); (180, 8); (181, 8); (182, 8); (183, 8); (184, 8); (185, 8); (186, 8); (187, 8); (188, 8); (189, 8); (190, 8); (191, 8); (192, 8); (193, 8); (194, 8); (195, 8); (196, 8); (197, 8); (198, 8); (199, 8); (200, 8); (201, 8); (202, 8); (203, 8); (204, 8); (205, 8); (206, 8); (207, 8); (208, 8); (209, 8); (210, 8); (211, 8); (212, 8); (213, 8); (214, 8); (215, 8); (216, 8); (217, 8); (218, 8); (219, 8); (220, 8); (221, 8); (222, 8); (223, 8); (224, 8); (225, 8); (226, 8); (227, 8); (228, 8); (229, 8); (230, 8); (231, 8); (232, 8); (233, 8); (234, 8); (235, 8); (236, 8); (237, 8); (238, 8); (239, 8); (240, 8); (241, 8); (242, 8); (243, 8); (244, 8); (245, 8); (246, 8); (247, 8); (248, 8); (249, 8); (250, 8); (251, 8); (252, 8); (253, 8); (254, 8); (255, 8)];
+     h_k := 16;
+     h_stream := [0; 16; 0; 32; 97; 0; 43; 97; 98; 43; 97; 108; 43; 97; 109; 43; 97; 114; 43; 97; 115; 45; 99; 111; 45; 99; 117; 46; 101; 99; 43; 107; 97; 45; 110; 110; 45; 110; 115; 32; 116; 0; 46; 116; 105];
+     h_tab := [(3, 1); (20494, 3); (21189, 6); (21285, 9); (21301, 12); (21366, 15); (21376, 18); (23253, 21); (23273, 24); (23898, 27); (25254, 30); (26833, 33); (26849, 36); (29184, 39); (29376, 42)];
+     h_endings := [3; 20494; 29184];
+     h_trees := [] |};
+     hh_cwU := [(62, 6); (0, 9); (1, 9); (2, 9); (3, 9); (4, 9); (5, 9); (6, 9); (7, 9); (8, 9); (9, 9); (10, 9); (11, 9); (12, 9); (13, 9); (14, 9); (15, 9); (16, 9); (17, 9); (18, 9); (19, 9); (20, 9); (21, 9); (22, 9); (23, 9); (24, 9); (25, 9); (26, 9); (27, 9); (28, 9); (29, 9); (30, 9); (31, 9); (32, 9); (33, 9); (34, 9); (35, 9); (36, 9); (37, 9); (19, 8); (20, 8); (21, 8); (22, 8); (23, 8); (24, 8); (25, 8); (26, 8); (27, 8); (28, 8); (29, 8); (30, 8); (31, 8); (32, 8); (33, 8); (34, 8); (35, 8); (36, 8); (37, 8); (38, 8); (39, 8); (40, 8); (41, 8); (42, 8); (43, 8); (44, 8); (45, 8); (46, 8); (47, 8); (48, 8); (49, 8); (50, 8); (51, 8); (52, 8); (53, 8); (54, 8); (55, 8); (56, 8); (57, 8); (58, 8); (59, 8); (60, 8); (61, 8); (62, 8); (63, 8); (64, 8); (65, 8); (66, 8); (67, 8); (68, 8); (69, 8); (70, 8); (71, 8); (72, 8); (73, 8); (74, 8); (75, 8); (76, 8); (63, 6); (78, 8); (224, 8); (116, 7); (114, 7); (219, 8); (83, 8); (84, 8); (119, 7); (86, 8); (220, 8); (118, 7); (89, 8); (113, 7); (61, 6); (92, 8); (93, 8); (60, 6); (223, 8); (96, 8); (97, 8); (98, 8); (222, 8); (100, 8); (101, 8); (221, 8); (103, 8); (104, 8); (105, 8); (106, 8); (107, 8); (115, 7); (117, 7); (110, 8); (225, 8); (112, 8); (113, 8); (114, 8); (115, 8); (116, 8); (117, 8); (118, 8); (119, 8); (120, 8); (121, 8); (122, 8); (123, 8); (124, 8); (125, 8); (126, 8); (127, 8); (128, 8); (129, 8); (130, 8); (131, 8); (132, 8); (133, 8); (134, 8); (135, 8); (136, 8); (137, 8); (138, 8); (139, 8); (140, 8); (141, 8); (142, 8); (143, 8); (144, 8); (145, 8); (146, 8); (147, 8); (148, 8); (149, 8); (150, 8); (151, 8); (152, 8); (153, 8); (154, 8); (155, 8); (156, 8); (157, 8); (158, 8); (159, 8); (160, 8); (161, 8); (162, 8); (163, 8); (164, 8); (165, 8); (166, 8); (167, 8); (168, 8); (169, 8); (170, 8); (171, 8); (172, 8); (173, 8); (174, 8); (175, 8); (176, 8); (177, 8); (178, 8); (179, 8); (180, 8); (181, 8); (182, 8); (183, 8); (184, 8); (185, 8); (186, 8); (187, 8); (188, 8); (189, 8); (190, 8); (191, 8); (192, 8); (193, 8); (194, 8); (195, 8); (196, 8); (197, 8); (198, 8); (199, 8); (200, 8); (201, 8); (202, 8); (203, 8); (204, 8); (205, 8); (206, 8); (207, 8); (208, 8); (209, 8); (210, 8); (211, 8); (212, 8); (213, 8); (214, 8); (215, 8); (216, 8); (111, 8); (109, 8); (108, 8); (102, 8); (99, 8); (95, 8); (94, 8); (91, 8); (90, 8); (88, 8); (87, 8); (85, 8); (82, 8); (81, 8); (80, 8); (79, 8); (217, 8); (77, 8); (218, 8)];
+     hh_kU := 16;
+     hh_streamU := [0; 45; 107; 97; 45; 122; 111; 47; 131; 115; 45; 110; 105; 44; 110; 97; 45; 101; 108; 32; 101; 0; 46; 128; 99; 45; 128; 100; 44; 100; 111; 44; 129; 111; 44; 108; 111; 46; 105; 102; 44; 114; 105; 43; 114; 97; 43; 111; 114; 16; 0; 44; 0; 129; 45; 97; 119; 44; 97; 108; 43; 97; 114; 43; 97; 0];
+     hh_tabU := [(56575, 1); (56823, 4); (57823, 7); (58335, 10); (58367, 13); (58843, 16); (58864, 19); (59329, 22); (59347, 25); (59887, 28); (60399, 31); (60911, 34); (61367, 37); (62398, 40); (62462, 43); (63438, 46); (63488, 49); (64431, 51); (65403, 54); (65463, 57); (65486, 60); (65518, 63)];
+     hh_endingsU := [58864; 63488; 64431; 65518];
+     hh_treesU := [] |}.
+Definition hhx_t16_S : list str := [[97; 97; 97; 97; 97; 97; 97; 97; 97; 97; 97; 97; 97; 97; 97; 97; 97; 97; 97; 97; 97; 97; 97; 97; 97; 97; 97; 97; 97; 97; 97; 97; 97; 97; 97; 97; 97; 97; 97; 97; 97; 97; 97; 97; 97; 97; 97; 97; 97; 97; 97; 97; 97; 97; 97; 97; 97; 97; 97; 97; 97; 97; 97; 97; 97; 97; 97; 97; 97; 97; 97; 97; 97; 97; 97; 97; 97; 97; 97; 97; 97; 97; 97; 97; 97; 97; 97; 97; 97; 97; 97; 97; 97; 97; 97; 97; 97; 97; 97; 97; 97; 97; 97; 97; 97; 97; 97; 97; 97; 97; 97; 97; 97; 97; 97; 97; 97; 97; 97; 97; 97; 97; 97; 97; 97; 97; 97; 97]; [97; 97; 97; 97; 97; 97; 97; 97; 97; 97; 97; 97; 97; 97; 97; 97; 97; 97; 97; 97; 97; 97; 97; 97; 97; 97; 97; 97; 97; 97; 97; 97; 97; 97; 97; 97; 97; 97; 97; 97; 97; 97; 97; 97; 97; 97; 97; 97; 97; 97; 97; 97; 97; 97; 97; 97; 97; 97; 97; 97; 97; 97; 97; 97; 97; 97; 97; 97; 97; 97; 97; 97; 97; 97; 97; 97; 97; 97; 97; 97; 97; 97; 97; 97; 97; 97; 97; 97; 97; 97; 97; 97; 97; 97; 97; 97; 97; 97; 97; 97; 97; 97; 97; 97; 97; 97; 97; 97; 97; 97; 97; 97; 97; 97; 97; 97; 97; 97; 97; 97; 97; 97; 97; 97; 97; 97; 97; 97; 98]; [97; 97; 97; 97; 97; 97; 97; 97; 97; 97; 97; 97; 97; 97; 97; 97; 97; 97; 97; 97; 97; 97; 97; 97; 97; 97; 97; 97; 97; 97; 97; 97; 97; 97; 97; 97; 97; 97; 97; 97; 97; 97; 97; 97; 97; 97; 97; 97; 97; 97; 97; 97; 97; 97; 97; 97; 97; 97; 97; 97; 97; 97; 97; 97; 97; 97; 97; 97; 97; 97; 97; 97; 97; 97; 97; 97; 97; 97; 97; 97; 97; 97; 97; 97; 97; 97; 97; 97; 97; 97; 97; 97; 97; 97; 97; 97; 97; 97; 97; 97; 97; 97; 97; 97; 97; 97; 97; 97; 97; 97; 97; 97; 97; 97; 97; 97; 97; 97; 97; 97; 97; 97; 97; 97; 97; 97; 97; 97; 99]; [97; 97; 97; 97; 97; 97; 97; 97; 97; 97; 97; 97; 97; 97; 97; 97; 97; 97; 97; 97; 97; 97; 97; 97; 97; 97; 97; 97; 97; 97; 97; 97; 97; 97; 97; 97; 97; 97; 97; 97; 97; 97; 97; 97; 97; 97; 97; 97; 97; 97; 97; 97; 97; 97; 97; 97; 97; 97; 97; 97; 97; 97; 97; 97; 97; 97; 97; 97; 97; 97; 97; 97; 97; 97; 97; 97; 97; 97; 97; 97; 97; 97; 97; 97; 97; 97; 97; 97; 97; 97; 97; 97; 97; 97; 97; 97; 97; 97; 97; 97; 97; 97; 97; 97; 97; 97; 97; 97; 97; 97; 97; 97; 97; 97; 97; 97; 97; 97; 97; 97; 97; 97; 97; 97; 97; 97; 97; 97; 100]; [97; 97; 97; 97; 97; 97; 97; 97; 97; 97; 97; 97; 97; 97; 97; 97; 97; 97; 97; 97; 97; 97; 97; 97; 97; 97; 97; 97; 97; 97; 97; 97; 97; 97; 97; 97; 97; 97; 97; 97; 97; 97; 97; 97; 97; 97; 97; 97; 97; 97; 97; 97; 97; 97; 97; 97; 97; 97; 97; 97; 97; 97; 97; 97; 97; 97; 97; 97; 97; 97; 97; 97; 97; 97; 97; 97; 97; 97; 97; 97; 97; 97; 97; 97; 97; 97; 97; 97; 97; 97; 97; 97; 97; 97; 97; 97; 97; 97; 97; 97; 97; 97; 97; 97; 97; 97; 97; 97; 97; 97; 97; 97; 97; 97; 97; 97; 97; 97; 97; 97; 97; 97; 97; 97; 97; 97; 97; 97; 101]; [97; 97; 97; 97; 97; 97; 97; 97; 97; 97; 97; 97; 97; 97; 97; 97; 97; 97; 97; 97; 97; 97; 97; 97; 97; 97; 97; 97; 97; 97; 97; 97; 97; 97; 97; 97; 97; 97; 97; 97; 97; 97; 97; 97; 97; 97; 97; 97; 97; 97; 97; 97; 97; 97; 97; 97; 97; 97; 97; 97; 97; 97; 97; 97; 97; 97; 97; 97; 97; 97; 97; 97; 97; 97; 97; 97; 97; 97; 97; 97; 97; 97; 97; 97; 97; 97; 97; 97; 97; 97; 97; 97; 97; 97; 97; 97; 97; 97; 97; 97; 97; 97; 97; 97; 97; 97; 97; 97; 97; 97; 97; 97; 97; 97; 97; 97; 97; 97; 97; 97; 97; 97; 97; 97; 97; 97; 97; 97; 102]; [97; 97; 97; 97; 97; 97; 97; 97; 97; 97; 97; 97; 97; 97; 97; 97; 97; 97; 97; 97; 97; 97; 97; 97; 97; 97; 97; 97; 97; 97; 97; 97; 97; 97; 97; 97; 97; 97; 97; 97; 97; 97; 97; 97; 97; 97; 97; 97; 97; 97; 97; 97; 97; 97; 97; 97; 97; 97; 97; 97; 97; 97; 97; 97; 97; 97; 97; 97; 97; 97; 97; 97; 97; 97; 97; 97; 97; 97; 97; 97; 97; 97; 97; 97; 97; 97; 97; 97; 97; 97; 97; 97; 97; 97; 97; 97; 97; 97; 97; 97; 97; 97; 97; 97; 97; 97; 97; 97; 97; 97; 97; 97; 97; 97; 97; 97; 97; 97; 97; 97; 97; 97; 97; 97; 97; 97; 97; 97; 103]; [97; 97; 97; 97; 97; 97; 97; 97; 97; 97; 97; 97; 97; 97; 97; 97; 97; 97; 97; 97; 97; 97; 97; 97; 97; 97; 97; 97; 97; 97; 97; 97; 97; 97; 97; 97; 97; 97; 97; 97; 97; 97; 97; 97; 97; 97; 97; 97; 97; 97; 97; 97; 97; 97; 97; 97; 97; 97; 97; 97; 97; 97; 97; 97; 97; 97; 97; 97; 97; 97; 97; 97; 97; 97; 97; 97; 97; 97; 97; 97; 97; 97; 97; 97; 97; 97; 97; 97; 97; 97; 97; 97; 97; 97; 97; 97; 97; 97; 97; 97; 97; 97; 97; 97; 97; 97; 97; 97; 97; 97; 97; 97; 97; 97; 97; 97; 97; 97; 97; 97; 97; 97; 97; 97; 97; 97; 97; 97; 104]; [97; 97; 97; 97; 97; 97; 97; 97; 97; 97; 97; 97; 97; 97; 97; 97; 97; 97; 97; 97; 97; 97; 97; 97; 97; 97; 97; 97; 97; 97; 97; 97; 97; 97; 97; 97; 97; 97; 97; 97; 97; 97; 97; 97; 97; 97; 97; 97; 97; 97; 97; 97; 97; 97; 97; 97; 97; 97; 97; 97; 97; 97; 97; 97; 97; 97; 97; 97; 97; 97; 97; 97; 97; 97; 97; 97; 97; 97; 97; 97; 97; 97; 97; 97; 97; 97; 97; 97; 97; 97; 97; 97; 97; 97; 97; 97; 97; 97; 97; 97; 97; 97; 97; 97; 97; 97; 97; 97; 97; 97; 97; 97; 97; 97; 97; 97; 97; 97; 97; 97; 97; 97; 97; 97; 97; 97; 97; 97; 105]; [97; 97; 97; 97; 97; 97; 97; 97; 97; 97; 97; 97; 97; 97; 97; 97; 97; 97; 97; 97; 97; 97; 97; 97; 97; 97; 97; 97; 97; 97; 97; 97; 97; 97; 97; 97; 97; 97; 97; 97; 97; 97; 97; 97; 97; 97; 97; 97; 97; 97; 97; 97; 97; 97; 97; 97; 97; 97; 97; 97; 97; 97; 97; 97; 97; 97; 97; 97; 97; 97; 97; 97; 97; 97; 97; 97; 97; 97; 97; 97; 97; 97; 97; 97; 97; 97; 97; 97; 97; 97; 97; 97; 97; 97; 97; 97; 97; 97; 97; 97; 97; 97; 97; 97; 97; 97; 97; 97; 97; 97; 97; 97; 97; 97; 97; 97; 97; 97; 97; 97; 97; 97; 97; 97; 97; 97; 97; 97; 106]; [97; 97; 97; 97; 97; 97; 97; 97; 97; 97; 97; 97; 97; 97; 97; 97; 97; 97; 97; 97; 97; 97; 97; 97; 97; 97; 97; 97; 97; 97; 97; 97; 97; 97; 97; 97; 97; 97; 97; 97; 97; 97; 97; 97; 97; 97; 97; 97; 97; 97; 97; 97; 97; 97; 97; 97; 97; 97; 97; 97; 97; 97; 97; 97; 97; 97; 97; 97; 97; 97; 97; 97; 97; 97; 97; 97; 97; 97; 97; 97; 97; 97; 97; 97; 97; 97; 97; 97; 97; 97; 97; 97; 97; 97; 97; 97; 97; 97; 97; 97; 97; 97; 97; 97; 97; 97; 97; 97; 97; 97; 97; 97; 97; 97; 97; 97; 97; 97; 97; 97; 97; 97; 97; 97; 97; 97; 97; 97; 107]; [97; 97; 97; 97; 97; 97; 97; 97; 97; 97; 97; 97; 97; 97; 97; 97; 97; 97; 97; 97; 97; 97; 97; 97; 97; 97; 97; 97; 97; 97; 97; 97; 97; 97; 97; 97; 97; 97; 97; 97; 97; 97; 97; 97; 97; 97; 97; 97; 97; 97; 97; 97; 97; 97; 97; 97; 97; 97; 97; 97; 97; 97; 97; 97; 97; 97; 97; 97; 97; 97; 97; 97; 97; 97; 97; 97; 97; 97; 97; 97; 97; 97; 97; 97; 97; 97; 97; 97; 97; 97; 97; 97; 97; 97; 97; 97; 97; 97; 97; 97; 97; 97; 97; 97; 97; 97; 97; 97; 97; 97; 97; 97; 97; 97; 97; 97; 97; 97; 97; 97; 97; 97; 97; 97; 97; 97; 97; 97; 108]; [97; 97; 97; 97; 97; 97; 97; 97; 97; 97; 97; 97; 97; 97; 97; 97; 97; 97; 97; 97; 97; 97; 97; 97; 97; 97; 97; 97; 97; 97; 97; 97; 97; 97; 97; 97; 97; 97; 97; 97; 97; 97; 97; 97; 97; 97; 97; 97; 97; 97; 97; 97; 97; 97; 97; 97; 97; 97; 97; 97; 97; 97; 97; 97; 97; 97; 97; 97; 97; 97; 97; 97; 97; 97; 97; 97; 97; 97; 97; 97; 97; 97; 97; 97; 97; 97; 97; 97; 97; 97; 97; 97; 97; 97; 97; 97; 97; 97; 97; 97; 97; 97; 97; 97; 97; 97; 97; 97; 97; 97; 97; 97; 97; 97; 97; 97; 97; 97; 97; 97; 97; 97; 97; 97; 97; 97; 97; 97; 109]; [97; 97; 97; 97; 97; 97; 97; 97; 97; 97; 97; 97; 97; 97; 97; 97; 97; 97; 97; 97; 97; 97; 97; 97; 97; 97; 97; 97; 97; 97; 97; 97; 97; 97; 97; 97; 97; 97; 97; 97; 97; 97; 97; 97; 97; 97; 97; 97; 97; 97; 97; 97; 97; 97; 97; 97; 97; 97; 97; 97; 97; 97; 97; 97; 97; 97; 97; 97; 97; 97; 97; 97; 97; 97; 97; 97; 97; 97; 97; 97; 97; 97; 97; 97; 97; 97; 97; 97; 97; 97; 97; 97; 97; 97; 97; 97; 97; 97; 97; 97; 97; 97; 97; 97; 97; 97; 97; 97; 97; 97; 97; 97; 97; 97; 97; 97; 97; 97; 97; 97; 97; 97; 97; 97; 97; 97; 97; 97; 110]; [97; 97; 97; 97; 97; 97; 97; 97; 97; 97; 97; 97; 97; 97; 97; 97; 97; 97; 97; 97; 97; 97; 97; 97; 97; 97; 97; 97; 97; 97; 97; 97; 97; 97; 97; 97; 97; 97; 97; 97; 97; 97; 97; 97; 97; 97; 97; 97; 97; 97; 97; 97; 97; 97; 97; 97; 97; 97; 97; 97; 97; 97; 97; 97; 97; 97; 97; 97; 97; 97; 97; 97; 97; 97; 97; 97; 97; 97; 97; 97; 97; 97; 97; 97; 97; 97; 97; 97; 97; 97; 97; 97; 97; 97; 97; 97; 97; 97; 97; 97; 97; 97; 97; 97; 97; 97; 97; 97; 97; 97; 97; 97; 97; 97; 97; 97; 97; 97; 97; 97; 97; 97; 97; 97; 97; 97; 97; 97; 111]; [97; 97; 97; 97; 97; 97; 97; 97; 97; 97; 97; 97; 97; 97; 97; 97; 97; 97; 97; 97; 97; 97; 97; 97; 97; 97; 97; 97; 97; 97; 97; 97; 97; 97; 97; 97; 97; 97; 97; 97; 97; 97; 97; 97; 97; 97; 97; 97; 97; 97; 97; 97; 97; 97; 97; 97; 97; 97; 97; 97; 97; 97; 97; 97; 97; 97; 97; 97; 97; 97; 97; 97; 97; 97; 97; 97; 97; 97; 97; 97; 97; 97; 97; 97; 97; 97; 97; 97; 97; 97; 97; 97; 97; 97; 97; 97; 97; 97; 97; 97; 97; 97; 97; 97; 97; 97; 97; 97; 97; 97; 97; 97; 97; 97; 97; 97; 97; 97; 97; 97; 97; 97; 97; 97; 97; 97; 97; 97; 112]; [97; 97; 97; 97; 97; 97; 97; 97; 97; 97; 97; 97; 97; 97; 97; 97; 97; 97; 97; 97; 97; 97; 97; 97; 97; 97; 97; 97; 97; 97; 97; 97; 97; 97; 97; 97; 97; 97; 97; 97; 97; 97; 97; 97; 97; 97; 97; 97; 97; 97; 97; 97; 97; 97; 97; 97; 97; 97; 97; 97; 97; 97; 97; 97; 97; 97; 97; 97; 97; 97; 97; 97; 97; 97; 97; 97; 97; 97; 97; 97; 97; 97; 97; 97; 97; 97; 97; 97; 97; 97; 97; 97; 97; 97; 97; 97; 97; 97; 97; 97; 97; 97; 97; 97; 97; 97; 97; 97; 97; 97; 97; 97; 97; 97; 97; 97; 97; 97; 97; 97; 97; 97; 97; 97; 97; 97; 97; 97; 113]].
+Definition hhx_t16_d : hhtfc :=
+  {| hh_ht :=
+  {| h_elements := 17; h_maxlength := 130; h_maxcomplength := 37; h_buckets := 1; h_bsize := 32;
+     h_text := [85; 85; 85; 85; 85; 85; 85; 85; 85; 85; 85; 85; 85; 85; 85; 85; 85; 85; 85; 85; 85; 85; 85; 85; 85; 85; 85; 85; 85; 85; 85; 85; 0; 251; 159; 254; 231; 127; 185; 191; 238; 103; 251; 151; 254; 229; 127; 185; 63; 238; 71; 251; 143; 254; 227; 127; 184; 191; 238; 39; 251; 135; 254; 225; 127; 184; 63; 238; 7; 0; 0; 0];
+     h_bl := [0; 0; 72];
+     h_cw := [(0, 8); (2, 9); (3, 9); (4, 9); (5, 9); (6, 9); (7, 9); (8, 9); (9, 9); (10, 9); (11, 9); (12, 9); (13, 9); (14, 9); (15, 9); (16, 9); (17, 9); (18, 9); (19, 9); (20, 9); (21, 9); (22, 9); (23, 9); (24, 9); (25, 9); (26, 9); (27, 9); (28, 9); (29, 9); (30, 9); (31, 9); (32, 9); (33, 9); (34, 9); (35, 9); (36, 9); (37, 9); (38, 9); (39, 9); (40, 9); (41, 9); (42, 9); (43, 9); (44, 9); (45, 9); (46, 9); (47, 9); (48, 9); (49, 9); (50, 9); (51, 9); (52, 9); (53, 9); (54, 9); (55, 9); (56, 9); (57, 9); (58, 9); (59, 9); (60, 9); (61, 9); (62, 9); (63, 9); (64, 9); (65, 9); (66, 9); (67, 9); (34, 8); (35, 8); (36, 8); (37, 8); (38, 8); (39, 8); (40, 8); (41, 8); (42, 8); (43, 8); (44, 8); (45, 8); (46, 8); (47, 8); (48, 8); (49, 8); (50, 8); (51, 8); (52, 8); (53, 8); (54, 8); (55, 8); (56, 8); (57, 8); (58, 8); (59, 8); (60, 8); (61, 8); (62, 8); (63, 8); (1, 2); (256, 9); (257, 9); (258, 9); (259, 9); (260, 9); (261, 9); (262, 9); (263, 9); (264, 9); (265, 9); (266, 9); (267, 9); (268, 9); (269, 9); (270, 9); (271, 9); (272, 9); (273, 9); (274, 9); (275, 9); (276, 9); (277, 9); (278, 9); (279, 9); (280, 9); (281, 9); (282, 9); (283, 9); (284, 9); (285, 9); (286, 9); (287, 9); (288, 9); (289, 9); (290, 9); (291, 9); (292, 9); (293, 9); (294, 9); (295, 9); (296, 9); (297, 9); (298, 9); (299, 9); (300, 9); (301, 9); (302, 9); (303, 9); (304, 9); (305, 9); (306, 9); (307, 9); (308, 9); (309, 9); (310, 9); (311, 9); (312, 9); (313, 9); (314, 9); (315, 9); (158, 8); (159, 8); (160, 8); (161, 8); (162, 8); (163, 8); (164, 8); (165, 8); (166, 8); (167, 8); (168, 8); (169, 8); (170, 8); (171, 8); (172, 8); (173, 8); (174, 8); (175, 8); (176, 8); (177, 8); (178, 8); (179, 8); (180, 8); (181, 8); (182, 8); (183, 8); (184, 8); (185, 8); (186, 8); (187, 8); (188, 8); (189, 8); (190, 8); (191, 8); (192, 8); (193, 8); (194, 8); (195, 8); (196, 8); (197, 8); (198, 8); (199, 8); (200, 8); (201, 8); (202, 8); (203, 8); (204, 8); (205, 8); (206, 8); (207, 8); (208, 8); (209, 8); (210, 8); (211, 8); (212, 8); (213, 8); (214, 8); (215, 8); (216, 8); (217, 8); (218, 8); (219, 8); (220, 8); (221, 8); (222, 8); (223, 8); (224, 8); (225, 8); (226, 8); (227, 8); (228, 8); (229, 8); (230, 8); (231, 8); (232, 8); (233, 8); (234, 8); (235, 8); (236, 8); (237, 8); (238, 8); (239, 8); (240, 8); (241, 8); (242, 8); (243, 8); (244, 8); (245, 8); (246, 8); (247, 8); (248, 8); (249, 8); (250, 8); (251, 8); (252, 8); (253, 8); (254, 8); (255, 8)];
+     h_k := 16;
+     h_stream := [0; 16; 0; 143; 97; 97; 97; 97; 97; 97; 97; 97];
+     h_tab := [(251, 1); (21845, 3)];
+     h_endings := [251];
+     h_trees := [] |};
+     hh_cwU := [(7, 3); (0, 9); (1, 9); (2, 9); (3, 9); (4, 9); (5, 9); (6, 9); (7, 9); (8, 9); (9, 9); (10, 9); (11, 9); (12, 9); (13, 9); (14, 9); (15, 9); (16, 9); (17, 9); (18, 9); (19, 9); (20, 9); (21, 9); (22, 9); (23, 9); (24, 9); (25, 9); (26, 9); (27, 9); (28, 9); (29, 9); (30, 9); (31, 9); (32, 9); (33, 9); (34, 9); (35, 9); (36, 9); (37, 9); (38, 9); (39, 9); (40, 9); (41, 9); (42, 9); (43, 9); (44, 9); (45, 9); (46, 9); (47, 9); (48, 9); (49, 9); (50, 9); (51, 9); (52, 9); (53, 9); (54, 9); (55, 9); (56, 9); (57, 9); (58, 9); (59, 9); (60, 9); (61, 9); (62, 9); (63, 9); (64, 9); (65, 9); (66, 9); (67, 9); (68, 9); (69, 9); (70, 9); (71, 9); (72, 9); (73, 9); (74, 9); (75, 9); (76, 9); (77, 9); (78, 9); (79, 9); (80, 9); (81, 9); (82, 9); (83, 9); (84, 9); (85, 9); (86, 9); (87, 9); (88, 9); (89, 9); (90, 9); (91, 9); (46, 8); (47, 8); (48, 8); (49, 8); (50, 8); (207, 8); (206, 8); (205, 8); (204, 8); (203, 8); (202, 8); (201, 8); (200, 8); (199, 8); (198, 8); (197, 8); (196, 8); (195, 8); (194, 8); (193, 8); (192, 8); (67, 8); (68, 8); (69, 8); (70, 8); (71, 8); (72, 8); (73, 8); (74, 8); (75, 8); (76, 8); (77, 8); (78, 8); (79, 8); (80, 8); (81, 8); (13, 4); (83, 8); (84, 8); (85, 8); (86, 8); (87, 8); (88, 8); (89, 8); (90, 8); (91, 8); (92, 8); (93, 8); (94, 8); (95, 8); (96, 8); (97, 8); (98, 8); (99, 8); (100, 8); (101, 8); (102, 8); (103, 8); (104, 8); (105, 8); (106, 8); (107, 8); (108, 8); (109, 8); (110, 8); (111, 8); (112, 8); (113, 8); (114, 8); (115, 8); (116, 8); (117, 8); (118, 8); (119, 8); (120, 8); (121, 8); (122, 8); (123, 8); (124, 8); (125, 8); (126, 8); (127, 8); (128, 8); (129, 8); (130, 8); (131, 8); (132, 8); (133, 8); (134, 8); (135, 8); (136, 8); (137, 8); (138, 8); (139, 8); (140, 8); (141, 8); (142, 8); (143, 8); (144, 8); (145, 8); (146, 8); (147, 8); (148, 8); (149, 8); (150, 8); (151, 8); (152, 8); (153, 8); (154, 8); (155, 8); (156, 8); (157, 8); (158, 8); (159, 8); (160, 8); (161, 8); (162, 8); (163, 8); (164, 8); (165, 8); (166, 8); (167, 8); (168, 8); (169, 8); (170, 8); (171, 8); (172, 8); (173, 8); (174, 8); (175, 8); (176, 8); (177, 8); (178, 8); (179, 8); (180, 8); (181, 8); (182, 8); (183, 8); (184, 8); (185, 8); (186, 8); (187, 8); (188, 8); (189, 8); (82, 8); (66, 8); (65, 8); (64, 8); (63, 8); (62, 8); (61, 8); (60, 8); (59, 8); (58, 8); (57, 8); (56, 8); (55, 8); (54, 8); (53, 8); (52, 8); (51, 8); (190, 8); (191, 8)];
+     hh_kU := 16;
+     hh_streamU := [0; 61; 111; 0; 0; 61; 108; 0; 0; 61; 105; 0; 0; 61; 102; 0; 0; 61; 99; 0; 0; 62; 129; 112; 0; 62; 129; 109; 0; 62; 129; 106; 0; 62; 129; 103; 0; 62; 129; 100; 0; 16; 0; 62; 0; 129; 113; 62; 0; 129; 110; 62; 0; 129; 107; 62; 0; 129; 104; 62; 0; 129; 101; 62; 0; 129; 98; 57; 0; 0; 129];
+     hh_tabU := [(49919, 1); (50687, 5); (51455, 9); (52223, 13); (52991, 17); (56351, 21); (56399, 25); (56447, 29); (56495, 33); (56543, 37); (57344, 41); (64385, 43); (64391, 47); (64397, 51); (64403, 55); (64409, 59); (64415, 63); (65392, 67); (65393, 67); (65394, 67); (65395, 67)];
+     hh_endingsU := [49919; 50687; 51455; 52223; 52991; 56351; 56399; 56447; 56495; 56543; 57344; 64385; 64391; 64397; 64403; 64409; 64415; 65392; 65393; 65394; 65395];
+     hh_treesU := [] |}.
+
+Lemma hhx_usa_checked :
+  hhtfc_check hhx_usa_S hhx_usa_d = true /\ valid_set_b hhx_usa_S = true /\ hhtfc_layout_chk hhx_usa_S hhx_usa_d = true.
+Proof. vm_compute. auto. Qed.
+
+Lemma hhx_usa_valid : valid_set hhx_usa_S.
+Proof. apply hvalid_set_b_sound. apply hhx_usa_checked. Qed.
+
+(* the faithful model reproduces the defect: the object of the real constructor for a valid set whose in-bucket shared
+   prefixes are 128 does not answer extract(2) (the real code crashes in StatCoder::decodeString); the checker
+   rejects the object, although the constructor laid the text out as specified *)
+Theorem hhtfc_lcp128_refuted :
+  valid_set_b hhx_t16_S = true /\
+  spec_extract hhx_t16_S 2 = Some (repeat 97 128 ++ [98]) /\ hhtfc_extract hhx_t16_d 2 = None /\
+  hhtfc_check hhx_t16_S hhx_t16_d = false /\ hhtfc_layout_chk hhx_t16_S hhx_t16_d = true.
+Proof. vm_compute. auto 10. Qed.
+
+(* the hypotheses of [decode_string_item] for the HUFFMAN view of hhx_usa: the second string of bucket 1 (alaska after
+   alabama, lcp 3), read from the state decodeHeader(1) (tableHT) + resetScan(1) leave *)
+Definition hhx_st1 : bst * ast :=
+  match opt_bind (decode_header (hh_ht hhx_usa_d) 1) (reset_scan (hh_ht hhx_usa_d) 1) with Some st => st | None => st0_dummy end.
+Definition hhx_walk : bst * list N :=
+  match item_walk 20 (hh_hu hhx_usa_d) (fst hhx_st1) [] 5 with Some r => r | None => (fst st0_dummy, []) end.
+
+Lemma hhx_item_hyps :
+  holds_adv (snd hhx_st1) [97; 108; 97; 98; 97; 109; 97] [] /\
+  reads (hh_hu hhx_usa_d) (fst hhx_st1) [] (lenN (((3 + 128) :: [115; 107; 97]) ++ [0])) (fst hhx_walk) (snd hhx_walk) /\
+  snd hhx_walk = (((3 + 128) :: [115; 107; 97]) ++ [0]) ++ skipN 5 (snd hhx_walk) /\
+  lenN [97; 108; 97; 98; 97; 109; 97] + 1 + lenN (snd hhx_walk) < str_cap (hh_ht hhx_usa_d).
+Proof.
+  split; [|split; [|split]].
+  - split; [vm_compute; reflexivity|]. split; [vm_compute; reflexivity|].
+    assert (E : exists rest, a_buf (snd hhx_st1) = ([97; 108; 97; 98; 97; 109; 97] ++ [0]) ++ rest).
+    { eexists. vm_compute. reflexivity. }
+    destruct E as [rest E]. rewrite E. apply buf_at_0_intro.
+  - apply (item_walk_sound (hh_hu hhx_usa_d) 20). vm_compute. reflexivity.
+  - vm_compute. reflexivity.
+  - vm_compute. reflexivity.
+Qed.
